@@ -711,6 +711,7 @@ def check_C16(F, tier, t0):
     guarded(R, 'X8 flush', engine_x.rule_X8_flush, F, R, 'max_clique_gen')
     guarded(R, 'X8 writer choice', engine_x.rule_X8_writer_choice, F, R, 'max_clique_gen')
     guarded(R, 'X8 reader choice', engine_x.rule_X8_reader_choice, F, R, 'max_clique_gen')
+    guarded(R, 'L csv', engine_l.rule_csv_records, F, R, 'max_clique_gen')
     guarded(R, 'no early return', engine_x.rule_no_early_return, F, R, 'max_clique_gen')
     guarded(R, 'L remarks', engine_l.rule_comment_holes, F, R, 'max_clique_gen')
     front_end(R, F)       # the emitted text means what the language's tokenizer and operator tables say it means
@@ -734,6 +735,7 @@ def check_C18(F, tier, t0):
     guarded(R, 'X8', engine_x.rule_X8, F, R, 'random_graph_gen')
     guarded(R, 'X8 flush', engine_x.rule_X8_flush, F, R, 'random_graph_gen')
     guarded(R, 'X8 writer choice', engine_x.rule_X8_writer_choice, F, R, 'random_graph_gen')
+    guarded(R, 'L csv', engine_l.rule_csv_records, F, R, 'random_graph_gen')
     guarded(R, 'X8 order', engine_x.rule_X8_after_input, F, R, 'random_graph_gen', ('random_graph_gen::read_graph', 'random_graph_gen::generate_graph', 'random_graph_gen::augment_colors'))
     R.floor('L:refuse-not-truncate', 1); R.floor('L:candidate-push-sites', 1); R.floor('L:complete-count', 1); R.floor('L:truth-table-rows', 22); R.floor('L:edge-writer-sites', 3)
     return finish(R, 'other', tier, t0,
